@@ -111,6 +111,8 @@ class TensorEval:
 
     def _run_body(self, f, bind):
         env = dict(bind)
+        if self.depth == 0:
+            self.last_env = env            # attribute stores of the outermost call are read back from here (`self.x = v` -> 'self.x')
         a_ = f.node.args
         pos = a_.posonlyargs + a_.args
         for p_, d_ in list(zip(pos[len(pos) - len(a_.defaults):], a_.defaults)) + [(p_, d_) for p_, d_ in zip(a_.kwonlyargs, a_.kw_defaults) if d_ is not None]:
@@ -420,6 +422,11 @@ class TensorEval:
             b_ = self.ev(f, e.value, env)
             if isinstance(b_, EnumMember):
                 return b_.value
+            raise Unknown(f'attribute {t[:40]}')
+        if isinstance(e, ast.Attribute) and e.attr in ('start', 'stop', 'step'):
+            b_ = self.ev(f, e.value, env)
+            if isinstance(b_, (range, slice)):
+                return getattr(b_, e.attr)
             raise Unknown(f'attribute {t[:40]}')
         if isinstance(e, ast.Attribute):
             if e.attr == 'T':
